@@ -1,1 +1,358 @@
-//! C08 harnesses (not written yet).
+//! C08 — slicing and splitting partition the bits without loss or reordering.
+//!
+//! Model: a vector is `(len, value)`. `copy_range(s..e)` = `(e-s, (v >> s) mod 2^(e-s))`,
+//! `split_off(i)` / `split(i)` = low `(i, v mod 2^i)` and high `(len-i, v >> i)`, and
+//! appending the high part to the low part gives back `(len, v)`. All results are compared
+//! on their raw storage (padding and spare words included), so bits copied beyond `e` or a
+//! wrong length cannot hide.
+use crate::big::Big;
+use crate::nd;
+use crate::scopes::*;
+use bva::{Bit, BitVector, Bv, Bvd, Bvf};
+
+#[inline(always)]
+fn bit_of(b: bool) -> Bit {
+    if b {
+        Bit::One
+    } else {
+        Bit::Zero
+    }
+}
+
+
+/// Replacement for `<[T]>::copy_from_slice` under Kani: CBMC 6.11 mis-models a `memcpy` of
+/// symbolic size over elements wider than one byte (minimal probe: `dst[..n].copy_from_slice(
+/// &src[..n])` on `[u64; 2]` with symbolic `n` "fails" `dst[0] == src[0]`), which gives
+/// spurious, natively non-reproducing counterexamples in the word-aligned arm of
+/// `Bvf::copy_range`. Element-wise copy with the same panic condition.
+#[cfg(kani)]
+pub fn copy_from_slice_model<T: Copy>(dst: &mut [T], src: &[T]) {
+    assert!(dst.len() == src.len(), "copy_from_slice: source and destination lengths differ");
+    let mut i = 0;
+    while i < dst.len() {
+        dst[i] = src[i];
+        i += 1;
+    }
+}
+
+/// `harness!` plus the `copy_from_slice` stub (the stub replaces the generic function, i.e.
+/// every element type).
+macro_rules! harness_cfs {
+    ($name:ident, $unw:literal, $body:block) => {
+        #[cfg_attr(kani, kani::proof)]
+        #[cfg_attr(kani, kani::unwind($unw))]
+        #[cfg_attr(kani, kani::stub(<[u64]>::copy_from_slice, copy_from_slice_model))]
+        pub fn $name() $body
+    };
+}
+
+// ---- copy_range ---------------------------------------------------------------------------
+
+/// Cheap sources (`Bvf`, `Bv::Fixed`): length, range and contents all symbolic.
+/// `$wb` = word size in bits (for the word-boundary witnesses).
+macro_rules! h_copy_range {
+    ($name:ident, $unw:literal, $a:expr, $wb:literal) => {
+        harness_cfs!($name, $unw, {
+            let (a, ra) = $a;
+            let n = ra.len;
+            let e = nd::upto(n);
+            let s = nd::upto(e);
+            w!(s == n && n > 0, "empty range at s = e = len of a non-empty vector");
+            w!(s == 0 && e == n && n == ra.cap, "whole vector at full capacity");
+            w!(s > 0 && s % $wb == 0 && e > s && e % $wb != 0, "start on a word boundary, end inside a word");
+            w!(s % $wb != 0 && e % $wb == 0 && e > s + $wb, "end on a word boundary, start inside an earlier word");
+            w!(e < n && ra.v.bit(e) && e > s, "source bit just above the range is set");
+            let r = a.copy_range(s..e).into_raw();
+            assert!(r.len == e - s, "C08: copy_range length != e - s");
+            assert!(r.v == ra.v.shr(s).trunc(e - s), "C08: copy_range storage != (v >> s) mod 2^(e-s)");
+            assert!(r.len <= r.cap, "C08: len > capacity");
+            assert!(a.into_raw() == ra, "C08: copy_range modified its source");
+        });
+    };
+}
+
+/// Heap sources (`Bvd`, `Bv::Dynamic`): the slice is allocated by `e - s`, and CBMC only
+/// copes with allocation sizes that are syntactically constant, so `s` and `e` are concrete
+/// (a lattice around the 64-bit word boundaries and the inline limit); the source length
+/// (`e..=max`, i.e. with and without bits and spare words above the range) and all contents
+/// are symbolic.
+macro_rules! h_copy_range_se {
+    ($name:ident, $unw:literal, $gen:ident, $max:literal, $s:literal, $e:literal) => {
+        harness!($name, $unw, {
+            let (a, ra) = $gen(anylen($max));
+            let n = ra.len;
+            nd::assume(n >= $e);
+            w!(n == $e, "range ends at len");
+            w!($e == $max || (n > $e && ra.v.bit($e)), "source bit just above the range is set (unless the range ends at the storage end)");
+            w!($e == $s || ra.v.bit(($e as usize).wrapping_sub(1)), "top bit of the range set (unless the range is empty)");
+            w!($e == $max || ra.cap >= n + 64, "source has a spare word (unless the range ends at the storage end)");
+            let r = a.copy_range($s..$e);
+            let r = r.into_raw();
+            assert!(r.len == $e - $s, "C08: copy_range length != e - s");
+            assert!(r.v == ra.v.shr($s).trunc($e - $s), "C08: copy_range storage != (v >> s) mod 2^(e-s)");
+            assert!(r.len <= r.cap, "C08: len > capacity");
+            assert!(a.into_raw() == ra, "C08: copy_range modified its source");
+        });
+    };
+}
+
+/// `Bv` in heap mode: additionally records the storage mode of the slice (a slice of at most
+/// 128 bits is demoted to inline storage; the bits must be the same either way).
+macro_rules! h_copy_range_bv_se {
+    ($name:ident, $unw:literal, $gen:ident, $max:literal, $s:literal, $e:literal) => {
+        harness!($name, $unw, {
+            let (a, ra) = $gen(anylen($max));
+            let n = ra.len;
+            nd::assume(n >= $e);
+            w!(n == $e, "range ends at len");
+            w!($e == $max || (n > $e && ra.v.bit($e)), "source bit just above the range is set (unless the range ends at the storage end)");
+            w!($e > 128 || n <= 128, "heap source short enough for inline storage (when the range allows)");
+            w!($e == $max || n > 128, "source longer than the inline limit");
+            let r = a.copy_range($s..$e);
+            w!(is_fixed(&r) == ($e - $s <= 128), "slice is inline exactly when it fits in 128 bits");
+            let r = r.into_raw();
+            assert!(r.len == $e - $s, "C08: copy_range length != e - s");
+            assert!(r.v == ra.v.shr($s).trunc($e - $s), "C08: copy_range storage != (v >> s) mod 2^(e-s)");
+            assert!(r.len <= r.cap, "C08: len > capacity");
+            assert!(a.into_raw() == ra, "C08: copy_range modified its source");
+        });
+    };
+}
+
+// ---- split_off / split --------------------------------------------------------------------
+
+/// Cheap types: split point, length, contents symbolic; both `split_off` and `split`, and
+/// the reconstruction `low.append(&high) == original` executed on the real `append`.
+macro_rules! h_split {
+    ($name:ident, $unw:literal, $a:expr, $wb:literal) => {
+        harness_cfs!($name, $unw, {
+            let (a, ra) = $a;
+            let n = ra.len;
+            let i = nd::upto(n);
+            w!(i == n && n > 0, "split at i = len");
+            w!(i == 0 && n > 0, "split at i = 0");
+            w!(i > 0 && i < n && i % $wb == 0, "split on a word boundary");
+            w!(i % $wb != 0 && n > i + $wb, "split inside a word with more than a word above");
+            let mut lo = a.clone();
+            let hi = lo.split_off(i);
+            let (hi2, lo2) = a.clone().split(i);
+            let rlo = lo.clone().into_raw();
+            let rhi = hi.clone().into_raw();
+            assert!(rlo.len == i && rlo.v == ra.v.trunc(i), "C08: split_off: low part != (i, v mod 2^i)");
+            assert!(rhi.len == n - i && rhi.v == ra.v.shr(i), "C08: split_off: high part != (len-i, v >> i)");
+            assert!(rlo.len <= rlo.cap && rhi.len <= rhi.cap, "C08: len > capacity");
+            assert!(lo2.into_raw() == rlo, "C08: split: low part differs from split_off");
+            assert!(hi2.into_raw() == rhi, "C08: split: high part differs from split_off");
+            lo.append(&hi);
+            assert!(lo.into_raw() == ra, "C08: low.append(high) does not reconstruct the original");
+            assert!(a.into_raw() == ra, "C08: source of the clones modified");
+        });
+    };
+}
+
+/// Heap types: `split_off(i)` allocates the high part by `len - i`; both are concrete
+/// (see `h_copy_range_se`), the contents are symbolic. `$gen` fixes the number of allocated
+/// words, so short lengths come with spare words.
+macro_rules! h_split_off_ni {
+    ($name:ident, $unw:literal, $gen:ident, $n:literal, $i:literal) => {
+        harness!($name, $unw, {
+            let (mut a, ra) = $gen($n);
+            w!($n == 0 || ra.v.bit(($n as usize).wrapping_sub(1)), "top bit set (unless empty)");
+            w!($i == 0 || $i == $n || (ra.v.bit($i) != ra.v.bit(($i as usize).wrapping_sub(1))), "bits on both sides of the split point differ (unless a part is empty)");
+            let hi = a.split_off($i);
+            let hi = hi.into_raw();
+            let lo = a.into_raw();
+            assert!(lo.len == $i && lo.v == ra.v.trunc($i), "C08: split_off: low part != (i, v mod 2^i)");
+            assert!(hi.len == $n - $i && hi.v == ra.v.shr($i), "C08: split_off: high part != (len-i, v >> i)");
+            assert!(lo.len <= lo.cap && hi.len <= hi.cap, "C08: len > capacity");
+        });
+    };
+}
+
+macro_rules! h_split_ni {
+    ($name:ident, $unw:literal, $gen:ident, $n:literal, $i:literal) => {
+        harness!($name, $unw, {
+            let (a, ra) = $gen($n);
+            w!($n == 0 || ra.v.bit(($n as usize).wrapping_sub(1)), "top bit set (unless empty)");
+            w!($i == 0 || $i == $n || (ra.v.bit($i) != ra.v.bit(($i as usize).wrapping_sub(1))), "bits on both sides of the split point differ (unless a part is empty)");
+            let (hi, lo) = a.split($i);
+            let hi = hi.into_raw();
+            let lo = lo.into_raw();
+            assert!(lo.len == $i && lo.v == ra.v.trunc($i), "C08: split: low part != (i, v mod 2^i)");
+            assert!(hi.len == $n - $i && hi.v == ra.v.shr($i), "C08: split: high part != (len-i, v >> i)");
+            assert!(lo.len <= lo.cap && hi.len <= hi.cap, "C08: len > capacity");
+        });
+    };
+}
+
+/// Heap types: reconstruction executed on the real `append` (the low part keeps the
+/// source's words, so appending the high part back does not reallocate).
+macro_rules! h_rejoin_ni {
+    ($name:ident, $unw:literal, $gen:ident, $n:literal, $i:literal) => {
+        harness!($name, $unw, {
+            let (mut a, ra) = $gen($n);
+            w!($n == 0 || ra.v.bit(($n as usize).wrapping_sub(1)), "top bit set (unless empty)");
+            w!($n == 0 || !ra.v.bit(($n as usize).wrapping_sub(1)), "top bit clear (unless empty)");
+            let hi = a.split_off($i);
+            a.append(&hi);
+            let r = a.into_raw();
+            assert!(r.len == ra.len && r.v == ra.v, "C08: low.append(high) does not reconstruct the original");
+            assert!(r.len <= r.cap, "C08: len > capacity");
+        });
+    };
+}
+
+// ---- first / last -------------------------------------------------------------------------
+
+macro_rules! h_first_last {
+    ($name:ident, $unw:literal, $a:expr) => {
+        harness!($name, $unw, {
+            let (a, ra) = $a;
+            let n = ra.len;
+            w!(n == 0, "empty vector");
+            w!(n == 1, "single bit: first and last coincide");
+            w!(n > 1 && ra.v.bit(0) != ra.v.bit(n - 1), "first and last differ");
+            w!(n == ra.cap && n > 0, "last bit is the top storage bit");
+            let f = a.first();
+            let l = a.last();
+            if n == 0 {
+                assert!(f.is_none() && l.is_none(), "C08: first/last of an empty vector is not None");
+            } else {
+                assert!(f == Some(bit_of(ra.v.bit(0))), "C08: first() != bit 0");
+                assert!(l == Some(bit_of(ra.v.bit(n - 1))), "C08: last() != bit len-1");
+            }
+            assert!(a.into_raw() == ra, "C08: first/last modified the vector");
+        });
+    };
+}
+
+// ---- Bvf and Bv inline: length, range / split point and contents all symbolic ---------------
+h_copy_range!(c08_q_range_f8x2, 4, f8x2(anylen(16)), 8);
+h_copy_range!(c08_q_range_f8x3, 5, f8x3(anylen(24)), 8);
+h_copy_range!(c08_q_range_f16x2, 4, f16x2(anylen(32)), 16);
+h_copy_range!(c08_q_range_f64x2, 4, f64x2(anylen(128)), 64);
+h_copy_range!(c08_q_range_bvfix, 4, bvfix(anylen(128)), 64);
+h_copy_range!(c08_t_range_f8x4, 6, f8x4(anylen(32)), 8);
+h_copy_range!(c08_t_range_f32x2, 4, f32x2(anylen(64)), 32);
+h_copy_range!(c08_t_range_f64x3, 5, f64x3(anylen(192)), 64);
+h_copy_range!(c08_t_range_fuszx2, 4, fuszx2(anylen(128)), 64);
+h_copy_range!(c08_t_range_f128x2, 4, f128x2(anylen(256)), 128);
+
+h_split!(c08_q_split_f8x2, 6, f8x2(anylen(16)), 8);
+h_split!(c08_q_split_f8x3, 7, f8x3(anylen(24)), 8);
+h_split!(c08_q_split_f16x2, 7, f16x2(anylen(32)), 16);
+h_split!(c08_t_split_f64x2, 19, f64x2(anylen(128)), 64);
+h_split!(c08_t_split_bvfix, 19, bvfix(anylen(128)), 64);
+
+h_first_last!(c08_q_firstlast_f8x2, 3, f8x2(anylen(16)));
+h_first_last!(c08_q_firstlast_f8x3, 3, f8x3(anylen(24)));
+h_first_last!(c08_q_firstlast_f16x2, 3, f16x2(anylen(32)));
+h_first_last!(c08_q_firstlast_f64x2, 3, f64x2(anylen(128)));
+h_first_last!(c08_q_firstlast_bvd2, 3, bvd2(anylen(128)));
+h_first_last!(c08_q_firstlast_bvd3, 3, bvd3(anylen(192)));
+h_first_last!(c08_q_firstlast_bvfix, 3, bvfix(anylen(128)));
+h_first_last!(c08_q_firstlast_bvdyn3, 3, bvdyn3(anylen(192)));
+h_first_last!(c08_t_firstlast_f128x2, 3, f128x2(anylen(256)));
+h_first_last!(c08_t_firstlast_bvd1, 3, bvd1(anylen(64)));
+h_first_last!(c08_t_firstlast_bvd4, 3, bvd4(anylen(256)));
+
+// ---- Bvd: concrete range lattice, symbolic source length and contents ----------------------
+h_copy_range_se!(c08_q_range_bvd3_s0_e0, 5, bvd3, 192, 0, 0);
+h_copy_range_se!(c08_q_range_bvd3_s0_e1, 5, bvd3, 192, 0, 1);
+h_copy_range_se!(c08_q_range_bvd3_s0_e64, 5, bvd3, 192, 0, 64);
+h_copy_range_se!(c08_q_range_bvd3_s0_e65, 5, bvd3, 192, 0, 65);
+h_copy_range_se!(c08_q_range_bvd3_s0_e192, 5, bvd3, 192, 0, 192);
+h_copy_range_se!(c08_q_range_bvd3_s1_e64, 5, bvd3, 192, 1, 64);
+h_copy_range_se!(c08_q_range_bvd3_s1_e65, 5, bvd3, 192, 1, 65);
+h_copy_range_se!(c08_q_range_bvd3_s5_e133, 5, bvd3, 192, 5, 133);
+h_copy_range_se!(c08_q_range_bvd3_s63_e64, 5, bvd3, 192, 63, 64);
+h_copy_range_se!(c08_q_range_bvd3_s63_e65, 5, bvd3, 192, 63, 65);
+h_copy_range_se!(c08_q_range_bvd3_s63_e128, 5, bvd3, 192, 63, 128);
+h_copy_range_se!(c08_q_range_bvd3_s64_e64, 5, bvd3, 192, 64, 64);
+h_copy_range_se!(c08_q_range_bvd3_s64_e65, 5, bvd3, 192, 64, 65);
+h_copy_range_se!(c08_q_range_bvd3_s64_e128, 5, bvd3, 192, 64, 128);
+h_copy_range_se!(c08_q_range_bvd3_s64_e129, 5, bvd3, 192, 64, 129);
+h_copy_range_se!(c08_q_range_bvd3_s64_e192, 5, bvd3, 192, 64, 192);
+h_copy_range_se!(c08_q_range_bvd3_s65_e129, 5, bvd3, 192, 65, 129);
+h_copy_range_se!(c08_q_range_bvd3_s100_e192, 5, bvd3, 192, 100, 192);
+h_copy_range_se!(c08_q_range_bvd3_s127_e129, 5, bvd3, 192, 127, 129);
+h_copy_range_se!(c08_q_range_bvd3_s128_e128, 5, bvd3, 192, 128, 128);
+h_copy_range_se!(c08_q_range_bvd3_s128_e192, 5, bvd3, 192, 128, 192);
+h_copy_range_se!(c08_q_range_bvd3_s129_e192, 5, bvd3, 192, 129, 192);
+h_copy_range_se!(c08_q_range_bvd3_s191_e192, 5, bvd3, 192, 191, 192);
+h_copy_range_se!(c08_q_range_bvd3_s192_e192, 5, bvd3, 192, 192, 192);
+h_copy_range_se!(c08_t_range_bvd1_s0_e64, 3, bvd1, 64, 0, 64);
+h_copy_range_se!(c08_t_range_bvd1_s3_e60, 3, bvd1, 64, 3, 60);
+h_copy_range_se!(c08_t_range_bvd1_s64_e64, 3, bvd1, 64, 64, 64);
+h_copy_range_se!(c08_t_range_bvd2_s0_e128, 4, bvd2, 128, 0, 128);
+h_copy_range_se!(c08_t_range_bvd2_s7_e120, 4, bvd2, 128, 7, 120);
+h_copy_range_se!(c08_t_range_bvd2_s64_e128, 4, bvd2, 128, 64, 128);
+h_copy_range_se!(c08_t_range_bvd2_s65_e127, 4, bvd2, 128, 65, 127);
+h_copy_range_se!(c08_t_range_bvd4_s0_e256, 6, bvd4, 256, 0, 256);
+h_copy_range_se!(c08_t_range_bvd4_s1_e255, 6, bvd4, 256, 1, 255);
+h_copy_range_se!(c08_t_range_bvd4_s64_e256, 6, bvd4, 256, 64, 256);
+h_copy_range_se!(c08_t_range_bvd4_s130_e250, 6, bvd4, 256, 130, 250);
+h_copy_range_se!(c08_t_range_bvd4_s192_e256, 6, bvd4, 256, 192, 256);
+h_copy_range_se!(c08_t_range_bvd4_s256_e256, 6, bvd4, 256, 256, 256);
+h_copy_range_se!(c08_t_range_bvd3_s1_e1, 5, bvd3, 192, 1, 1);
+h_copy_range_se!(c08_t_range_bvd3_s2_e66, 5, bvd3, 192, 2, 66);
+h_copy_range_se!(c08_t_range_bvd3_s62_e190, 5, bvd3, 192, 62, 190);
+h_copy_range_se!(c08_t_range_bvd3_s66_e130, 5, bvd3, 192, 66, 130);
+
+h_split_off_ni!(c08_q_splitoff_bvd3_n0_i0, 5, bvd3, 0, 0);
+h_split_off_ni!(c08_q_splitoff_bvd3_n1_i0, 5, bvd3, 1, 0);
+h_split_off_ni!(c08_q_splitoff_bvd3_n1_i1, 5, bvd3, 1, 1);
+h_split_off_ni!(c08_q_splitoff_bvd3_n64_i0, 5, bvd3, 64, 0);
+h_split_off_ni!(c08_q_splitoff_bvd3_n64_i64, 5, bvd3, 64, 64);
+h_split_off_ni!(c08_q_splitoff_bvd3_n65_i64, 5, bvd3, 65, 64);
+h_split_off_ni!(c08_q_splitoff_bvd3_n65_i1, 5, bvd3, 65, 1);
+h_split_off_ni!(c08_q_splitoff_bvd3_n128_i64, 5, bvd3, 128, 64);
+h_split_off_ni!(c08_q_splitoff_bvd3_n128_i63, 5, bvd3, 128, 63);
+h_split_off_ni!(c08_q_splitoff_bvd3_n130_i65, 5, bvd3, 130, 65);
+h_split_off_ni!(c08_q_splitoff_bvd3_n192_i0, 5, bvd3, 192, 0);
+h_split_off_ni!(c08_q_splitoff_bvd3_n192_i64, 5, bvd3, 192, 64);
+h_split_off_ni!(c08_q_splitoff_bvd3_n192_i128, 5, bvd3, 192, 128);
+h_split_off_ni!(c08_q_splitoff_bvd3_n192_i191, 5, bvd3, 192, 191);
+h_split_off_ni!(c08_q_splitoff_bvd3_n192_i192, 5, bvd3, 192, 192);
+h_split_off_ni!(c08_q_splitoff_bvd3_n100_i37, 5, bvd3, 100, 37);
+h_split_ni!(c08_q_split_bvd3_n128_i64, 5, bvd3, 128, 64);
+h_split_ni!(c08_q_split_bvd3_n70_i70, 5, bvd3, 70, 70);
+h_split_ni!(c08_q_split_bvd3_n192_i65, 5, bvd3, 192, 65);
+h_rejoin_ni!(c08_q_rejoin_bvd3_n192_i64, 5, bvd3, 192, 64);
+h_rejoin_ni!(c08_q_rejoin_bvd3_n192_i100, 5, bvd3, 192, 100);
+h_rejoin_ni!(c08_q_rejoin_bvd3_n130_i0, 5, bvd3, 130, 0);
+h_rejoin_ni!(c08_q_rejoin_bvd3_n130_i130, 5, bvd3, 130, 130);
+h_rejoin_ni!(c08_q_rejoin_bvd3_n64_i3, 5, bvd3, 64, 3);
+h_split_off_ni!(c08_t_splitoff_bvd2_n128_i1, 4, bvd2, 128, 1);
+h_split_off_ni!(c08_t_splitoff_bvd2_n128_i127, 4, bvd2, 128, 127);
+h_split_off_ni!(c08_t_splitoff_bvd2_n66_i64, 4, bvd2, 66, 64);
+h_split_off_ni!(c08_t_splitoff_bvd4_n256_i128, 6, bvd4, 256, 128);
+h_split_off_ni!(c08_t_splitoff_bvd4_n256_i1, 6, bvd4, 256, 1);
+h_split_off_ni!(c08_t_splitoff_bvd4_n200_i136, 6, bvd4, 200, 136);
+
+// ---- Bv in heap mode (sources longer and shorter than the inline limit) -----------------------
+h_copy_range_bv_se!(c08_q_range_bvdyn3_s0_e0, 5, bvdyn3, 192, 0, 0);
+h_copy_range_bv_se!(c08_q_range_bvdyn3_s0_e128, 5, bvdyn3, 192, 0, 128);
+h_copy_range_bv_se!(c08_q_range_bvdyn3_s0_e129, 5, bvdyn3, 192, 0, 129);
+h_copy_range_bv_se!(c08_q_range_bvdyn3_s1_e129, 5, bvdyn3, 192, 1, 129);
+h_copy_range_bv_se!(c08_q_range_bvdyn3_s1_e130, 5, bvdyn3, 192, 1, 130);
+h_copy_range_bv_se!(c08_q_range_bvdyn3_s64_e192, 5, bvdyn3, 192, 64, 192);
+h_copy_range_bv_se!(c08_q_range_bvdyn3_s63_e192, 5, bvdyn3, 192, 63, 192);
+h_copy_range_bv_se!(c08_q_range_bvdyn3_s60_e70, 5, bvdyn3, 192, 60, 70);
+h_copy_range_bv_se!(c08_q_range_bvdyn3_s128_e192, 5, bvdyn3, 192, 128, 192);
+h_copy_range_bv_se!(c08_q_range_bvdyn3_s192_e192, 5, bvdyn3, 192, 192, 192);
+h_copy_range_bv_se!(c08_q_range_bvdyn3_s0_e192, 5, bvdyn3, 192, 0, 192);
+h_copy_range_bv_se!(c08_q_range_bvdyn3_s130_e131, 5, bvdyn3, 192, 130, 131);
+h_copy_range_bv_se!(c08_t_range_bvdyn2_s0_e64, 4, bvdyn2, 128, 0, 64);
+h_copy_range_bv_se!(c08_t_range_bvdyn2_s5_e128, 4, bvdyn2, 128, 5, 128);
+h_copy_range_bv_se!(c08_t_range_bvdyn2_s0_e127, 4, bvdyn2, 128, 0, 127);
+h_split_off_ni!(c08_q_splitoff_bvdyn3_n192_i64, 5, bvdyn3, 192, 64);
+h_split_off_ni!(c08_q_splitoff_bvdyn3_n192_i63, 5, bvdyn3, 192, 63);
+h_split_off_ni!(c08_q_splitoff_bvdyn3_n130_i2, 5, bvdyn3, 130, 2);
+h_split_off_ni!(c08_q_splitoff_bvdyn3_n100_i50, 5, bvdyn3, 100, 50);
+h_split_off_ni!(c08_q_splitoff_bvdyn3_n192_i192, 5, bvdyn3, 192, 192);
+h_split_off_ni!(c08_q_splitoff_bvdyn3_n129_i0, 5, bvdyn3, 129, 0);
+h_split_ni!(c08_q_split_bvdyn3_n192_i64, 5, bvdyn3, 192, 64);
+h_split_ni!(c08_q_split_bvdyn3_n129_i1, 5, bvdyn3, 129, 1);
+h_rejoin_ni!(c08_q_rejoin_bvdyn3_n192_i64, 5, bvdyn3, 192, 64);
+h_rejoin_ni!(c08_q_rejoin_bvdyn3_n150_i30, 5, bvdyn3, 150, 30);
